@@ -68,6 +68,7 @@ type sTab struct { // reference into a package-level table
 	path []int
 	sym  *sSym // symbolic last index (value = sym; the entry selected is sym, i.e. index value sym.pred-1)
 	ptr  bool  // pointer to the node rather than the node value
+	lim  int   // > 0: the value is table[:lim] (a shorter window on the same table)
 }
 type sPTable struct{ forms []pform } // result of TransformPrecomputed
 type sStruct struct{ f []sVal }      // struct value (copied on load/store)
